@@ -82,7 +82,7 @@ fn expected_label(d: &Dom, n: usize) -> Option<String> {
     None
 }
 
-pub const META_VARIANTS: [&str; 10] = [
+pub const META_VARIANTS: [&str; 16] = [
     "<meta charset=x>",
     "<meta charset=''>",
     "<meta http-equiv=content-type content='a;charset=b'>",
@@ -93,6 +93,13 @@ pub const META_VARIANTS: [&str; 10] = [
     "<meta name=x content='charset=n'>",
     "<meta http-equiv=content-type content='charset'>",
     "<meta http-equiv=content-type content='a;charset\x0C=\x0Cb\x0Cc'>",
+    // the keyword must match as a whole: no trimming, no prefix / suffix match
+    "<meta http-equiv=' content-type' content='charset=t1'>",
+    "<meta http-equiv='content-type ' content='charset=t2'>",
+    "<meta http-equiv='content-type\n' content='charset=t3'>",
+    "<meta http-equiv=content-typex content='charset=t4'>",
+    "<meta http-equiv=content content='charset=t5'>",
+    "<meta http-equiv='' content='charset=t6'>",
 ];
 
 struct Acc {
